@@ -600,3 +600,21 @@ func flagMaskPhiTest(v ssa.Value, isB func(ssa.Value) bool) (mT, mF int64, eq bo
 	}
 	return 0, 0, false, false
 }
+
+var listValuePhiWitnesses = []Witness{
+	{Name: "benign-list-constant-held-in-an-interface-variable", Benign: true, Doc: "benign patch P07_3", Edits: []Edit{
+		{File: "parser.go", Old: "		n := &node{flag: constant}\n		if typ == integer {", New: "		var val Value = strs\n		if typ == integer {"},
+		{File: "parser.go", Old: "			n.value = ints\n		} else {\n			n.value = strs\n		}\n		p.idx = i + 1\n		return &astNode{\n			node: n,\n		}, nil", New: "			val = ints\n		}\n		p.idx = i + 1\n		return p.valNode(val), nil"}}},
+	{Name: "list-constant-held-in-an-interface-variable-gains-a-float-list", Rule: "R-LEAFTYPES", Edits: []Edit{
+		{File: "parser.go", Old: "		n := &node{flag: constant}\n		if typ == integer {", New: "		var val Value = strs\n		if len(strs) > 1000 {\n			val = make([]float64, len(strs))\n		} else if typ == integer {"},
+		{File: "parser.go", Old: "			n.value = ints\n		} else {\n			n.value = strs\n		}\n		p.idx = i + 1\n		return &astNode{\n			node: n,\n		}, nil", New: "			val = ints\n		}\n		p.idx = i + 1\n		return p.valNode(val), nil"}}},
+}
+
+var betweenArrayWitnesses = []Witness{
+	{Name: "benign-between-operands-collected-into-an-array", Benign: true, Doc: "benign patch P09_4", Edits: []Edit{
+		{File: "operator.go", Old: "\tv, ok := params[0].(int64)\n\tif !ok {\n\t\treturn nil, errTypeInt(between, params[0])\n\t}\n\ta, ok := params[1].(int64)\n\tif !ok {\n\t\treturn nil, errTypeInt(between, params[1])\n\t}\n\tb, ok := params[2].(int64)\n\tif !ok {\n\t\treturn nil, errTypeInt(between, params[2])\n\t}\n", New: "\tvar ints [3]int64\n\tfor i, p := range params {\n\t\tn, ok := p.(int64)\n\t\tif !ok {\n\t\t\treturn nil, errTypeInt(between, p)\n\t\t}\n\t\tints[i] = n\n\t}\n\n\tv, a, b := ints[0], ints[1], ints[2]\n"}}},
+	{Name: "between-array-form-value-and-lower-bound-swapped", Rule: "R-FOLD", Edits: []Edit{
+		{File: "operator.go", Old: "\tv, ok := params[0].(int64)\n\tif !ok {\n\t\treturn nil, errTypeInt(between, params[0])\n\t}\n\ta, ok := params[1].(int64)\n\tif !ok {\n\t\treturn nil, errTypeInt(between, params[1])\n\t}\n\tb, ok := params[2].(int64)\n\tif !ok {\n\t\treturn nil, errTypeInt(between, params[2])\n\t}\n", New: "\tvar ints [3]int64\n\tfor i, p := range params {\n\t\tn, ok := p.(int64)\n\t\tif !ok {\n\t\t\treturn nil, errTypeInt(between, p)\n\t\t}\n\t\tints[i] = n\n\t}\n\n\tv, a, b := ints[1], ints[0], ints[2]\n"}}},
+	{Name: "between-array-form-leaves-the-collecting-loop-early", Rule: "R-FOLD", Edits: []Edit{
+		{File: "operator.go", Old: "\tv, ok := params[0].(int64)\n\tif !ok {\n\t\treturn nil, errTypeInt(between, params[0])\n\t}\n\ta, ok := params[1].(int64)\n\tif !ok {\n\t\treturn nil, errTypeInt(between, params[1])\n\t}\n\tb, ok := params[2].(int64)\n\tif !ok {\n\t\treturn nil, errTypeInt(between, params[2])\n\t}\n", New: "\tvar ints [3]int64\n\tfor i, p := range params {\n\t\tn, ok := p.(int64)\n\t\tif !ok {\n\t\t\treturn nil, errTypeInt(between, p)\n\t\t}\n\t\tints[i] = n\n\t\tif i == 1 {\n\t\t\tbreak\n\t\t}\n\t}\n\n\tv, a, b := ints[0], ints[1], ints[2]\n"}}},
+}
